@@ -442,6 +442,111 @@ theorem C04_state_derived_histories :
       (sib.foldl (step repaired) init).calls = [(2, 1)]) := by
   refine ⟨⟨?_, ?_, ?_⟩, ⟨?_, ?_⟩, ⟨?_, ?_, ?_⟩, ?_, ?_, ?_⟩ <;> decide
 
+/-! ### round 6: `pipe2` answered with an error; a thread blocked in a system call -/
+
+/-- **`pipe2` fails (EMFILE / ENFILE)**, any state, repaired or as found: when `enable()` reaches `pipe2` (`needsPipe`) and the kernel
+answers with an error, `enable()` returns false and NOTHING changes — no subscriber entry, no ctx entry, no disposition, no pipe, the event
+stays as it was; when it does not reach `pipe2` the answer is irrelevant -/
+theorem C04_pipe2_failure (fx : Fixes) (s : State) (e : Nat) :
+    (needsPipe s e = true → enableP fx s e = (s, false)) ∧ (needsPipe s e = false → enableP fx s e = enable fx s e) := by
+  unfold enableP
+  constructor <;> intro h <;> simp [h]
+
+/-- **where `pipe2` is reached** (reachable states; histories now contain `enable()` calls with a failing `pipe2` at any point, also inside
+callbacks): exactly at an `enable()` of an alive, initialised event with a non-empty set whose loop has no subscription at all; that event
+is not enabled, so after the failure nothing is subscribed for it, every disposition and every saved disposition is untouched, `isEnabled()`
+stays false, and a later `enable()` behaves as if the failed one had never been made -/
+theorem C04_pipe2_failure_reachable (ops : List Op) (s : State) (he : exec repaired init ops = some s) (e : Nat)
+    (hp : needsPipe s e = true) :
+    (enableP repaired s e).2 = false ∧ (enableP repaired s e).1 = s ∧
+    (s.evs e).enabled = false ∧ (∀ g, subsOf s (s.evs e).loop g = []) ∧ (∀ g, (s.evs e).loop ∉ fdsOf s g) ∧
+    (∀ g, ¬ Subscribed (enableP repaired s e).1 e g) ∧
+    enable repaired (enableP repaired s e).1 e = enable repaired s e := by
+  have h := C04_reachable_inv ops s he
+  have hm := (C04_ctx_matches ops s he).1
+  have hf := (C04_ctx_matches ops s he).2.1
+  have hpipe := (C04_ctx_matches ops s he).2.2.1
+  have heq := (C04_pipe2_failure repaired s e).1 hp
+  have hnp : s.hasPipe (s.evs e).loop = false := by
+    unfold needsPipe at hp; simp only [Bool.and_eq_true, Bool.not_eq_true'] at hp; exact hp.2
+  have hnone : ∀ e' g, ¬ (Subscribed s e' g ∧ (s.evs e').loop = (s.evs e).loop) := by
+    intro e' g hs
+    have := (hpipe (s.evs e).loop).2 ⟨e', g, hs⟩
+    rw [hnp] at this; cases this
+  have hsub : ∀ g, subsOf s (s.evs e).loop g = [] := by
+    intro g
+    cases hc : subsOf s (s.evs e).loop g with
+    | nil => rfl
+    | cons x xs =>
+      exact absurd ((hm (s.evs e).loop g x).1 (by rw [hc]; exact List.mem_cons_self)) (hnone x g)
+  have hen : (s.evs e).enabled = false := by
+    cases hc : (s.evs e).enabled with
+    | false => rfl
+    | true =>
+      have hs : (s.evs e).sigs ≠ [] := by
+        unfold needsPipe at hp; simp only [Bool.and_eq_true, Bool.not_eq_true'] at hp
+        intro hnil; rw [hnil] at hp; simp at hp
+      obtain ⟨g, hg⟩ := List.exists_mem_of_ne_nil _ hs
+      exact absurd ⟨⟨hc, hg⟩, rfl⟩ (hnone e g)
+  refine ⟨by rw [heq], by rw [heq], hen, hsub, ?_, ?_, by rw [heq]⟩
+  · intro g hmem
+    obtain ⟨e', hs⟩ := (hf g _).1 hmem
+    exact hnone e' g hs
+  · intro g hs
+    rw [heq] at hs
+    rw [hs.1] at hen; cases hen
+
+/-- non-vacuity and the oracle at work: loop 1 is subscribed to signal 1 (handler 0 with SA_RESTART saved), `enable()` of loop 0's event meets a
+failing `pipe2`: returns false, same dispositions, the delivery reaches loop 1 only and chains the saved handler; the plain `enable()` then
+succeeds; with loop 0's pipe open the answer of `pipe2` does not matter -/
+theorem C04_pipe2_failure_example :
+    let pre : List Op := [.setDisp 1 { kind := .handler 0, flags := 1 }, .newEv 0 [], .newEv 1 [], .newEv 0 [], .init 0 [1, 2] false,
+                          .init 1 [1] false, .init 2 [2] true, .enable 1]
+    let s := pre.foldl (step repaired) init
+    let s2 := (pre ++ [Op.enableP 0, Op.raise 1, Op.pass 0 [], Op.pass 1 []]).foldl (step repaired) init
+    let s3 := (pre ++ [Op.enableP 0, Op.enable 0, Op.enableP 2]).foldl (step repaired) init
+    (needsPipe s 0 = true ∧ (enableP repaired s 0).2 = false ∧ fdsOf (step repaired s (.enableP 0)) 1 = [1] ∧
+      baseDisp (step repaired s (.enableP 0)) 1 = { kind := .handler 0, flags := 1 }) ∧
+    (cbCount s2 1 1 = 1 ∧ cbCount s2 0 1 = 0 ∧ s2.calls = [(0, 1)]) ∧
+    (needsPipe ((pre ++ [Op.enableP 0, Op.enable 0]).foldl (step repaired) init) 2 = false ∧ (s3.evs 2).enabled = true ∧ (s3.evs 0).enabled = true ∧
+      (exec repaired init (pre ++ [Op.enableP 0, Op.enable 0, Op.enableP 2])).isSome = true) := by
+  refine ⟨⟨?_, ?_, ?_, ?_⟩, ⟨?_, ?_, ?_⟩, ?_, ?_, ?_, ?_⟩ <;> decide
+
+/-- **a blocked system call while somebody is subscribed** (outside the statement, recorded): in every reachable state in which some enabled
+event is subscribed to g, a thread blocked in a slow system call that receives g gets EINTR — tbox's own handler is installed and it has
+no SA_RESTART — whatever the saved disposition says; with nobody subscribed the application's own disposition decides -/
+theorem C04_blocked_call_while_subscribed (ops : List Op) (s : State) (he : exec repaired init ops = some s) (g : Nat) :
+    ((∃ e, Subscribed s e g) → blockedCall s g = .eintr) ∧
+    ((¬ ∃ e, Subscribed s e g) → blockedCall s g =
+      match (s.os g).kind with
+      | .dfl => .killed | .ign => .undisturbed
+      | _ => if (s.os g).restart then .restarted else .eintr) := by
+  have hi := (C04_installed_while_subscribed ops s he g).1
+  constructor
+  · intro hs
+    have hk := hi.2 hs
+    unfold blockedCall; rw [hk]
+  · intro hs
+    have hk : (s.os g).kind ≠ .tbox := fun hk => hs (hi.1 hk)
+    unfold blockedCall
+    cases hc : (s.os g).kind with
+    | tbox => exact absurd hc hk
+    | _ => rfl
+
+/-- **SA_RESTART of the saved disposition is not in force while chained** (like `C04_chain_env_counterexample`): the application installed
+its handler with SA_RESTART, so its blocked `read` is restarted after the handler; as soon as a signal event subscribes, the same delivery
+makes that `read` fail with EINTR (the handler still runs: chained); after the last unsubscription it is restarted again -/
+theorem C04_restart_env_counterexample :
+    let d : Disp := { kind := .handler 1, flags := 1 }
+    let pre : List Op := [.setDisp 1 d]
+    let sub : List Op := pre ++ [.newEv 0 [], .init 0 [1] false, .enable 0]
+    let post : List Op := sub ++ [.raise 1, .pass 0 [], .disable 0]
+    blockedCall (pre.foldl (step repaired) init) 1 = .restarted ∧
+    (blockedCall (sub.foldl (step repaired) init) 1 = .eintr ∧ (baseDisp (sub.foldl (step repaired) init) 1).restart = true ∧
+      (raise (sub.foldl (step repaired) init) 1).1.calls = [(1, 1)]) ∧
+    (blockedCall (post.foldl (step repaired) init) 1 = .restarted ∧ (post.foldl (step repaired) init).os 1 = d) := by
+  refine ⟨?_, ⟨?_, ?_, ?_⟩, ?_, ?_⟩ <;> decide
+
 /-! ### the code as found: three concrete histories (each replayed on /repo by the check) -/
 
 /-- (C04-01) `initialize` on an enabled event -/
